@@ -473,7 +473,8 @@ func runCase(d caseDesc) (res caseResult) {
 
 	var ops []rec.V
 	var times []opTimes
-	ttls := map[int64]bool{int64(ms(d.Qttl)): true, int64(ms(d.Ittl)): true, int64(ms(d.Intv)): true}
+	var kinds []byte             // w r i d f, parallel to times
+	opTTL := map[int][]int64{} // jittered TTLs of the entries a request stored, by operation index
 	cs.t0 = time.Now()
 	target := int64(0)
 
@@ -488,6 +489,7 @@ func runCase(d caseDesc) (res caseResult) {
 		}
 		ta := cs.now()
 		times = append(times, opTimes{tb, ta})
+		kinds = append(kinds, 'd')
 		ops = append(ops, rec.L(rec.I(4), rec.I64(tb), rec.I64(ta), rec.Bool(did)))
 	}
 	doFinish := func() {
@@ -560,6 +562,7 @@ func runCase(d caseDesc) (res caseResult) {
 			ta = cs.now()
 		}
 		times = append(times, opTimes{tb, ta})
+		kinds = append(kinds, 'f')
 		ops = append(ops, rec.L(rec.I(5), rec.I64(tb), rec.I64(ta), rec.Bool(did), rec.Bool(clSet), rec.I(clN), rec.Bool(storeSet), rec.L(marks...), rec.I(cs.readLen), rec.I64(clTTL), rec.I64(storeTTL), rec.I64(markTTL)))
 	}
 
@@ -622,6 +625,7 @@ func runCase(d caseDesc) (res caseResult) {
 			}
 			cs.nchg = len(chs)
 			times = append(times, opTimes{tb, ta})
+			kinds = append(kinds, 'w')
 			ops = append(ops, rec.L(rec.I(1), rec.I64(tb), rec.I64(ta), rec.L(vs...)))
 			res.stats["op_write"]++
 			res.stats["changes"] += len(vs)
@@ -669,9 +673,9 @@ func runCase(d caseDesc) (res caseResult) {
 				switch ev.val.(type) {
 				case *graph.CheckResponseCacheEntry:
 					jq = int64(ev.ttl) - int64(ms(d.Qttl))
-					ttls[int64(ev.ttl)] = true
+					opTTL[len(times)] = append(opTTL[len(times)], int64(ev.ttl))
 				case *storage.TupleIteratorCacheEntry:
-					ttls[int64(ev.ttl)] = true
+					opTTL[len(times)] = append(opTTL[len(times)], int64(ev.ttl))
 					for i, ki := range o.Keys {
 						if ev.key == cs.iterKey(keyPool[ki]) {
 							ji[i] = int64(ev.ttl) - int64(ms(d.Ittl))
@@ -688,6 +692,7 @@ func runCase(d caseDesc) (res caseResult) {
 				ovs[i] = rec.L(rec.Bool(ob.hit), rec.I64(ji[i]), contentV(ob.content))
 			}
 			times = append(times, opTimes{tb, ta})
+			kinds = append(kinds, 'r')
 			ops = append(ops, rec.L(rec.I(2), rec.I64(tb), rec.I64(ta), rec.L(kvs...), rec.Bool(tinv.IsZero()), rec.Bool(spawned), rec.Bool(qhit), rec.L(ovs...), rec.I64(jq)))
 			res.stats["op_request"]++
 			if qhit {
@@ -710,6 +715,7 @@ func runCase(d caseDesc) (res caseResult) {
 			spawned := cs.noteSpawn(was)
 			ta := cs.now()
 			times = append(times, opTimes{tb, ta})
+			kinds = append(kinds, 'i')
 			ops = append(ops, rec.L(rec.I(3), rec.I64(tb), rec.I64(ta), rec.Bool(spawned)))
 			if spawned {
 				res.stats["run_spawned_explicitly"]++
@@ -740,18 +746,44 @@ func runCase(d caseDesc) (res caseResult) {
 		res.discard = "lost_run"
 	}
 
-	// guard band: no two operations may lie (TTL +- guard) apart, for any TTL seen in this case
+	// guard band.  Every time comparison of the controller and of the caches has the form
+	// "instant of an earlier operation a + TTL  versus  instant of a later operation b":
+	//   queryTTL     a: run finish (changelog entry) or request (query entry)   b: request or InvalidateIfNeeded
+	//   iteratorTTL  a: write, b: run finish (window);  a: request or run finish (entry, markers), b: request
+	//   interval     a: run finish (LastChecked)                                b: request
+	//   the jittered TTL of an entry: a = the request that stored it,           b: request
+	// A case in which such a pair lies within guardNS of the TTL apart is discarded.
+	near := func(i, j int, T int64) bool {
+		lo := times[j].tb - times[i].ta
+		hi := times[j].ta - times[i].tb
+		return lo-guardNS < T && T < hi+guardNS
+	}
+	qT, iT, vT := int64(ms(d.Qttl)), int64(ms(d.Ittl)), int64(ms(d.Intv))
 	for i := 0; i < len(times) && res.discard == ""; i++ {
 		if i > 0 && times[i].tb <= times[i-1].tb+1 {
 			res.discard = "clock_not_strict"
 		}
 		for j := i + 1; j < len(times) && res.discard == ""; j++ {
-			lo := times[j].tb - times[i].ta
-			hi := times[j].ta - times[i].tb
-			for T := range ttls {
-				if lo-guardNS < T && T < hi+guardNS {
-					res.discard = "guard_band"
+			a, b := kinds[i], kinds[j]
+			bad := false
+			if (a == 'f' || a == 'r') && (b == 'r' || b == 'i') && near(i, j, qT) {
+				bad = true
+			}
+			if ((a == 'w' && b == 'f') || ((a == 'r' || a == 'f') && b == 'r')) && near(i, j, iT) {
+				bad = true
+			}
+			if a == 'f' && b == 'r' && near(i, j, vT) {
+				bad = true
+			}
+			if b == 'r' {
+				for _, T := range opTTL[i] {
+					if near(i, j, T) {
+						bad = true
+					}
 				}
+			}
+			if bad {
+				res.discard = "guard_band"
 			}
 		}
 	}
@@ -1151,7 +1183,7 @@ func main() {
 				}
 				// a replayed timeline hits the same time windows: repeat it a few times so that at
 				// least one repetition survives the guard band
-				for i := 0; i < 3; i++ {
+				for i := 0; i < 4; i++ {
 					descs = append(descs, d)
 				}
 			}
@@ -1193,7 +1225,27 @@ func main() {
 	}
 	close(next)
 	wg.Wait()
+	emitted := map[string]bool{}
+	id := func(d caseDesc) string { return fmt.Sprintf("%d/%d/%s", d.Seed, d.Idx, d.Tmpl) }
 	for _, r := range results {
+		if r.discard == "" {
+			emitted[id(r.desc)] = true
+		}
 		emit(w, r)
+	}
+	if o.Replay != "" {
+		// a replayed timeline whose repetitions all fell into the guard band: say so with a trivial case
+		seen := map[string]bool{}
+		for _, r := range results {
+			if k := id(r.desc); !emitted[k] && !seen[k] {
+				seen[k] = true
+				f := false
+				d := r.desc
+				d.Nt = &f
+				d.Ops = nil
+				w.Stat("replay_all_repetitions_discarded", 1)
+				w.Case(d, rec.L(rec.Bool(d.Qon), rec.Bool(d.Ion), rec.I64(int64(d.Qttl)*1e6), rec.I64(int64(d.Ittl)*1e6), rec.I64(int64(d.Intv)*1e6), rec.I(d.Jit)), rec.L())
+			}
+		}
 	}
 }
